@@ -60,7 +60,7 @@ def gen_service_program(rng: Any, *, crash: bool = False) -> dict[str, Any]:
                     "spawn_via": rng.choice(["method", "shortcut"]),
                     # how a callable teardown action is given: plain function, functools.partial, or an object with __call__
                     "action_form": rng.choice(["function", "function", "partial", "object", "unhashable_object", "falsy_object", "builtin", "method_wrapper", "awaitable_object"]),
-                    "func_form": rng.choice(["function", "function", "partial", "object", "unhashable_object", "lambda"]),
+                    "func_form": rng.choice(["function", "function", "partial", "object", "unhashable_object", "lambda", "decorated"]),
                     "start_delay": 0, "from_child": rng.random() < 0.15}
             if spec["started_value"] and rng.random() < 0.4:
                 spec["start_delay"] = 0.5  # the task takes a while before it reports itself started
@@ -98,8 +98,22 @@ def gen_service_program(rng: Any, *, crash: bool = False) -> dict[str, Any]:
     return prog
 
 
+def _decorated(func: Any) -> Any:
+    """an ordinary `functools.wraps` decorator: ONE wrapper function (one code object) for every function it decorates, whatever
+    their signatures - which are those of the functions they wrap"""
+    import functools
+
+    @functools.wraps(func)
+    async def wrapper(*args: Any, **kwargs: Any) -> Any:
+        return await func(*args, **kwargs)
+
+    return wrapper
+
+
 def wrap_form(func: Any, form: str, takes_task_status: bool) -> Any:
     """the coroutine function given as a plain function, a functools.partial or an object with an async __call__"""
+    if form == "decorated":
+        return _decorated(func)
     if form == "partial":
         import functools
 
@@ -720,7 +734,7 @@ def gen_factory_program(rng: Any) -> dict[str, Any]:
                     # (0: the task never waits for anything - it is over before whoever spawned it runs again)
                     "dur": rng.choice([0, 0.125, 0.625, 1.125, 2.625, 5.125]), "outcome": outcome, "exc": rng.choice(["ValueError", "Custom", "Group", "Group1"]),
                     "task_status": rng.random() < 0.5, "name": rng.choice([None, f"task{tid}"]),
-                    "func_form": rng.choice(["function", "function", "partial", "object", "unhashable_object", "lambda"])}
+                    "func_form": rng.choice(["function", "function", "partial", "object", "unhashable_object", "lambda", "decorated"])}
             if rng.random() < 0.3:
                 spec["own_teardown"] = True
             if outcome == "return" and rng.random() < 0.3 and (swallow or not will_crash):
